@@ -13,7 +13,7 @@ from vf.models.sse import EventSourceParser
 PROPERTY = "C19"
 LEVEL = "exploration"
 SHARDS = {"quick": 4, "thorough": 16}
-REQUIRED = ["eventsource-parse", "order-and-count", "ping-ignored", "asgi-stream", "wsgi-stream"]
+REQUIRED = ["eventsource-parse", "order-and-count", "ping-ignored", "asgi-stream", "wsgi-stream", "event-object-reused"]
 RULE = ("Random event dictionaries: every subset/order of data/event/id/retry; data built from an alphabet of CR, LF, CRLF, U+000B, U+000C, "
         "U+001C-1E, U+0085, U+2028, U+2029, BOM, spaces, colons, empty string, JSON, non-ASCII; single-line names/ids; retry >= 0; charsets "
         "utf-8 / latin-1 / gbk / cp1252 (data restricted to what the charset encodes). Each event alone through build_bytes_from_sse, and sequences "
@@ -142,21 +142,22 @@ def charset_of(content_type):
     return m.group(1) if m else "utf-8"
 
 
-def asgi_stream(ctx, events, delays, charset, ping=1.0):
+def asgi_stream(ctx, events, delays, charset, ping=1.0, share=False):
     from baize import asgi
+    expected_events = [dict(e) for e in events]  # what the caller yielded, by value
     lp = drivers.VLoop()
     try:
         async def gen():
             for ev, d in zip(events, delays):
                 if d:
                     await asyncio.sleep(d)
-                yield dict(ev)
+                yield ev if share else dict(ev)
         resp = asgi.SendEventResponse(gen(), ping_interval=ping, charset=charset)
         r = drivers.run_asgi(resp, drivers.to_scope(drivers.Req()), the_loop=lp)
     finally:
         lp.run_until_complete(lp.shutdown_asyncgens())
         lp.close()
-    case = {"events": events, "delays": delays, "charset": charset, "iface": "asgi"}
+    case = {"events": expected_events if share else events, "delays": delays, "charset": charset, "iface": "asgi", "same_dict_objects_yielded": share}
     ctx.mon("asgi-stream")
     if r.exc is not None:
         ctx.violation(f"exception|asgi-stream|{type(r.exc).__name__}", case, repr(r.exc))
@@ -172,19 +173,20 @@ def asgi_stream(ctx, events, delays, charset, ping=1.0):
     except (UnicodeDecodeError, LookupError) as e:
         ctx.violation("body-not-decodable-with-declared-charset|asgi", case, repr(e))
         return
-    judge_stream(ctx, events, text, case, "asgi")
+    judge_stream(ctx, expected_events, text, case, "asgi" + ("|event-object-reused" if share else ""))
 
 
 _POOL_N = [0]
 
 
-def wsgi_stream(ctx, events, delays, charset, ping=0.02):
+def wsgi_stream(ctx, events, delays, charset, ping=0.02, share=False):
     import time
 
     import baize.wsgi.responses as R
     from baize import wsgi
     from baize.concurrency import ThreadPoolExecutor
     _POOL_N[0] += 1
+    expected_events = [dict(e) for e in events]
     pool = ThreadPoolExecutor(max_workers=2, thread_name_prefix=f"c19sse{_POOL_N[0]}_")
     R.SendEventResponse.thread_pool = pool
     try:
@@ -192,12 +194,12 @@ def wsgi_stream(ctx, events, delays, charset, ping=0.02):
             for ev, d in zip(events, delays):
                 if d:
                     time.sleep(d)
-                yield dict(ev)
+                yield ev if share else dict(ev)
         resp = wsgi.SendEventResponse(gen(), ping_interval=ping, charset=charset)
         r = drivers.run_wsgi(resp, drivers.to_environ(drivers.Req()))
     finally:
         pool.shutdown(wait=True)
-    case = {"events": events, "delays": delays, "charset": charset, "iface": "wsgi"}
+    case = {"events": expected_events if share else events, "delays": delays, "charset": charset, "iface": "wsgi", "same_dict_objects_yielded": share}
     ctx.mon("wsgi-stream")
     if r.exc is not None:
         ctx.violation(f"exception|wsgi-stream|{type(r.exc).__name__}", case, repr(r.exc))
@@ -211,7 +213,7 @@ def wsgi_stream(ctx, events, delays, charset, ping=0.02):
     except (UnicodeDecodeError, LookupError) as e:
         ctx.violation("body-not-decodable-with-declared-charset|wsgi", case, repr(e))
         return
-    judge_stream(ctx, events, text, case, "wsgi")
+    judge_stream(ctx, expected_events, text, case, "wsgi" + ("|event-object-reused" if share else ""))
 
 
 REGRESSION = [{"data": "a b"}, {"data": ""}, {"data": "a\x85b", "event": "x"}, {"data": "x\x0cy\x1dz"}, {"id": "5", "retry": 10},
@@ -247,6 +249,19 @@ def run(ctx):
         ctx.case(("asgi", repr(events), cs, tuple(delays)))
         if i < 1:
             ctx.sample("asgi-sequence-with-pings", {"events": events, "delays": delays, "charset": cs})
+    # the caller yields the SAME dict object several times (an event template) - by value these are ordinary events
+    for i in range(ctx.scale(300, 8000)):
+        cs = "utf-8"
+        base = [gen_event(rng, cs) for _ in range(rng.randrange(1, 3))]
+        events = [rng.choice(base) for _ in range(rng.randrange(2, 6))]
+        delays = [0] * len(events)
+        if i % 4:
+            asgi_stream(ctx, events, delays, cs, share=True)
+        else:
+            wsgi_stream(ctx, events, delays, cs, share=True)
+        ctx.mon("event-object-reused")
+        ctx.case(("shared", repr(events)))
+    ctx.sample("same-dict-yielded-repeatedly", {"events": [{"data": "tick", "event": "t"}] * 3})
     for i in range(ctx.scale(160, 4000)):
         cs = rng.choice(CHARSETS)
         n = rng.randrange(1, 6)
@@ -258,11 +273,28 @@ def run(ctx):
             ctx.sample("wsgi-sequence-with-pings", {"events": events, "delays": delays, "charset": cs})
 
 
+def _share(case):
+    """rebuild object identity for a replay: equal dicts become the same object when the case says they were"""
+    if not case.get("same_dict_objects_yielded"):
+        return case["events"]
+    seen = []
+    out = []
+    for e in case["events"]:
+        for o in seen:
+            if o == e:
+                out.append(o)
+                break
+        else:
+            seen.append(e)
+            out.append(e)
+    return out
+
+
 def replay(ctx, case):
     if "event" in case:
         direct(ctx, case["event"], case["charset"])
     elif case.get("iface") == "wsgi":
-        wsgi_stream(ctx, case["events"], case["delays"], case["charset"])
+        wsgi_stream(ctx, _share(case), case["delays"], case["charset"], share=case.get("same_dict_objects_yielded", False))
     else:
-        asgi_stream(ctx, case["events"], case["delays"], case["charset"])
+        asgi_stream(ctx, _share(case), case["delays"], case["charset"], share=case.get("same_dict_objects_yielded", False))
     ctx.case(1)
